@@ -26,6 +26,9 @@ func (c *Ctx) nilablePos() {
 }
 
 func init() {
+	properties["BR"] = &Property{Level: "other", Engine: "effects", Run: func(c *Ctx) {
+		c.ssaRepo("buf-readonly", func(w *effects.World) *report.RuleResult { return effects.BufReadonly(w, "cmd/php-parser") })
+	}}
 	properties["NP"] = &Property{Level: "other", Engine: "effects", Run: func(c *Ctx) { c.nilablePos() }}
 	properties["GR"] = &Property{ // development aid: grammar-structure rules
 		Level: "other", Engine: "yacc",
@@ -88,6 +91,23 @@ func init() {
 			})
 			c.ssaRepo("globals-assigned", func(w *effects.World) *report.RuleResult { return effects.GlobalsAssigned(w, "cmd/php-parser") })
 		})
+	const brc = "buf-readonly on the command: what cmd/php-parser prints, dumps or writes back goes into storage made for that purpose - no byte slice that is not local storage (the file's content, which every token value of the tree aliases) is handed to bytes.NewBuffer or any other callee that may write it (seed C13-15: `bytes.NewBuffer(res.content[:0])` as the -pb output buffer; as soon as the printer inserts a blank, printing overwrites source bytes of tokens it has not printed yet)."
+	for _, id := range []string{"C13", "C02", "C11"} {
+		extendProp(id, brc, []report.Floor{{Rule: "buf-readonly", What: "functions", Min: 40}},
+			func(c *Ctx) {
+				c.ssaRepo("buf-readonly", func(w *effects.World) *report.RuleResult { return effects.BufReadonly(w, "cmd/php-parser") })
+			})
+	}
+	extendProp("C01", "no-global-writes on the packages that own or use the pools: every lexer has its own token and position pool; a pool kept in a package-level variable is shared by all parses of the process, so two parses running at the same time corrupt each other's tokens and index past the block (seed C01-15).",
+		[]report.Floor{{Rule: "no-global-writes", What: "functions", Min: 20}},
+		func(c *Ctx) {
+			c.ssaRepo("no-global-writes", func(w *effects.World) *report.RuleResult {
+				return effects.NoGlobalWrites(w, "internal/scanner", "internal/position", "pkg/token", "pkg/position")
+			})
+		})
+	extendProp("C17", "empty-list-literal: the printer tells an absent list from a present one by nil-ness, the formatter by length; they agree because the grammars never put an empty non-nil list into a node or carrier - the only empty list literals in the actions are the values of empty list productions (seed C17-13: the placeholder of `new class {` without parentheses got `Arguments: []ast.Vertex{}`; printed `new class() {}`, which parses into another tree, and formatting it again changes the text back).",
+		[]report.Floor{{Rule: "empty-list-literal", What: "literals", Min: 10}},
+		func(c *Ctx) { defer c.cleanup(); c.flows_("empty-list-literal") })
 	extendProp("C14", "presence-oracle: which slots of which node kinds a silently parsed tree may leave empty equals the reviewed table - a name node's kind is told by its tokens (a NameRelative has its `namespace` keyword, a NameFullyQualified its leading separator), and the resolver chooses the rule by kind (seed C14-13: `\\Vendor\\X` in a PHP 5 constant expression built as a NameRelative without the keyword, resolved against the current namespace).",
 		[]report.Floor{{Rule: "presence-oracle", What: "slots", Min: 1100}},
 		func(c *Ctx) { defer c.cleanup(); c.presenceOracle() })
